@@ -435,6 +435,9 @@ func (p *printer) stmt(s *Stmt) {
 		}
 		toks = append(toks, ";")
 		if s.Post != nil {
+			if s.PostName != "" {
+				toks = append(toks, s.PostName, "=")
+			}
 			toks = append(toks, ExprTokens(s.Post, p.l)...)
 		}
 		p.header("@for", toks)
